@@ -175,12 +175,16 @@ func runC07(c *ctx) {
 		s, _ := parseC07Spec(c.replay)
 		specs = append(specs, s)
 	} else {
-		// natural timing: every configuration × {idle, eof, err, data}
+		// natural timing: every configuration × {idle, eof, err, data} × transport Close ok / errors
+		k := 0
 		for _, nc := range []bool{false, true} {
 			for mode := 0; mode < 3; mode++ {
 				for _, tw := range []bool{false, true} {
 					for _, nat := range []string{"idle", "eof", "err", "data"} {
 						specs = append(specs, c07Spec{NC: nc, Mode: mode, Twice: tw, HasOp: c.rng.Chance(1, 3), Natural: nat})
+						// erroring Close: with and without an operation / RPC in flight, alternating
+						k++
+						specs = append(specs, c07Spec{NC: nc, Mode: mode, Twice: tw, HasOp: k%2 == 0, CloseErr: true, Natural: nat})
 					}
 				}
 			}
@@ -193,7 +197,7 @@ func runC07(c *ctx) {
 			nc := c.rng.Bool()
 			hasOp := c.rng.Chance(1, 2)
 			specs = append(specs, c07Spec{NC: nc, Mode: c.rng.Intn(3), Twice: c.rng.Chance(1, 3), HasOp: hasOp,
-				Sched: c07GenSched(c.rng, nc, hasOp)})
+				CloseErr: c.rng.Chance(1, 3), Sched: c07GenSched(c.rng, nc, hasOp)})
 		}
 	}
 
@@ -257,8 +261,8 @@ func runC07(c *ctx) {
 		if evs == "" {
 			evs = "."
 		}
-		lines = append(lines, fmt.Sprintf("c07 validate %s %d %s %s %s %s %s %s", c07b01(o.spec.NC), o.spec.Mode, c07b01(o.spec.Twice),
-			initR, opO, initN, opW, evs))
+		lines = append(lines, fmt.Sprintf("c07 validate %s %d %s %s %s %s %s %s %s", c07b01(o.spec.NC), o.spec.Mode, c07b01(o.spec.Twice),
+			c07b01(o.spec.CloseErr), initR, opO, initN, opW, evs))
 		idx = append(idx, i)
 	}
 	ans := c.ask(lines)
@@ -283,7 +287,7 @@ func runC07(c *ctx) {
 			kind = "natural:" + o.spec.Natural
 		}
 		res.Count("kind:" + kind)
-		res.Count(fmt.Sprintf("cfg:nc=%s,mode=%d,twice=%s,op=%s", c07b01(o.spec.NC), o.spec.Mode, c07b01(o.spec.Twice), c07b01(o.spec.HasOp)))
+		res.Count(fmt.Sprintf("cfg:nc=%s,mode=%d,twice=%s,op=%s,cerr=%s", c07b01(o.spec.NC), o.spec.Mode, c07b01(o.spec.Twice), c07b01(o.spec.HasOp), c07b01(o.spec.CloseErr)))
 		res.InDomain++
 		key := cas
 		if m := model[i]; m != nil {
@@ -392,14 +396,19 @@ func runC07(c *ctx) {
 			kret := fm["k"] == "ret" && (!o.spec.Twice || fm["second"] == "1")
 			rdead := fm["r"] == "dead"
 			ndead := fm["n"] == "dead" || fm["n"] == "absent"
-			if kret == (hung < 0) && fm["calls"] == fmt.Sprint(f.CloseCalls) &&
+			// what the last completed Close returned (the transport's error or nil)
+			errOK := true
+			if hung < 0 && kret {
+				errOK = (fm["err"] == "1") == (f.CloseErr[want-1] != "")
+			}
+			if kret == (hung < 0) && errOK && fm["calls"] == fmt.Sprint(f.CloseCalls) &&
 				rdead == !c07Contains(f.Alive, "channel.(*Channel).read") &&
 				ndead == !c07Contains(f.Alive, "netconf.(*Driver).read") {
 				ok = true
 			}
 		}
 		if !ok {
-			res.Fail("correspondence", cas, fmt.Sprintf("end state differs: observed close_returned=%v close_calls=%d alive=%v; model final=%s", f.CloseRet, f.CloseCalls, f.Alive, m["final"]),
+			res.Fail("correspondence", cas, fmt.Sprintf("end state differs: observed close_returned=%v close_err=%q close_calls=%d alive=%v; model final=%s", f.CloseRet, f.CloseErr, f.CloseCalls, f.Alive, m["final"]),
 				"corr:final-state")
 		}
 		if m["quiet"] == "1" && m["good"] != "1" {
@@ -409,7 +418,7 @@ func runC07(c *ctx) {
 	if hooksMissing {
 		res.Fail("machinery", "", "the scrapligo tree has no `verif` yield hooks (util.VerifYield): forced schedules could not be run, only natural-timing scenarios", "verif-hooks-missing")
 	}
-	res.Note("distinct model states visited by validated traces: %d (of 139484 reachable)", len(states))
+	res.Note("distinct model states visited by validated traces: %d (of 332032 reachable)", len(states))
 	if len(obs) > 0 {
 		for _, o := range obs {
 			if o.spec.Natural == "" && len(o.events) > 0 {
